@@ -74,10 +74,10 @@ End ParamsLoop.
 Definition func_result (fd : fdesc) (v : cty) (e0 : merr) (prev : vty) (prs : list paramres) : part * vty * bool * bool :=
   let e1 := receiver_error e0 (fd_on fd) prev in
   let k := underlying_kind v in
-  let ty := refine_return (fd_ret fd) k in
+  let ty := refine_return (fd_ret fd) k prev in
   let known := fd_known fd in
   let in_known_branch := known && iotype_eqb (snd (fd_ret fd)) IO_Single
-                         && vty_io_is prev IO_Array && ckind_eqb k KStruct in
+                         && vty_io_is prev IO_Array && vty_ty_is prev PT_Object && ckind_eqb k KStruct in
   let ty' := if in_known_branch then (PT_Object, snd ty) else ty in
   let fields_fail := in_known_branch &&
                      negb (is_some (match underlying_value v with
@@ -301,7 +301,8 @@ Proof.
     rewrite (params_loop_none cue (fd_params d) ps ats 0 Hargs). cbn [skipn].
     rewrite match_split, Hc, andb_true_r.
     assert (Hff : (fd_known d && iotype_eqb (snd (fd_ret d)) IO_Single
-                   && vty_io_is (Some prev) IO_Array && ckind_eqb (underlying_kind v) KStruct
+                   && vty_io_is (Some prev) IO_Array && vty_ty_is (Some prev) PT_Object
+                   && ckind_eqb (underlying_kind v) KStruct
                    && negb (is_some (match underlying_value v with Some u => available_fields u blocked | None => None end))) = false).
     { destruct (ckind_eqb (underlying_kind v) KStruct) eqn:Ek.
       - rewrite (fields_never_fail v Ek). apply andb_false_r.
@@ -316,11 +317,14 @@ Qed.
 
 (** * Part 3: the reported type *)
 
-(** the type opFunction.Validate reports for a known function *)
+(** the type opFunction.Validate reports for a known function: the element type of
+    the schema value (for Returns Any Single) only when it is the type [prev] the
+    previous part reported for the receiver (repair of finding F31) *)
 Definition reported (d : fdesc) (v : cty) (prev : vty) : ioty :=
   let k := underlying_kind v in
-  let ty := refine_return (fd_ret d) k in
-  if fd_known d && iotype_eqb (snd (fd_ret d)) IO_Single && vty_io_is prev IO_Array && ckind_eqb k KStruct
+  let ty := refine_return (fd_ret d) k prev in
+  if fd_known d && iotype_eqb (snd (fd_ret d)) IO_Single && vty_io_is prev IO_Array && vty_ty_is prev PT_Object
+     && ckind_eqb k KStruct
   then (PT_Object, snd ty) else ty.
 
 Theorem C14_reported_type : forall invalid ft ps us cue prev v d,
